@@ -295,6 +295,78 @@ func TestC16(t *testing.T) {
 		}
 	}
 
+	// ---- who the running codec takes as the signer of every routed authority message: the account the authority
+	// decodes to, and nothing else (the .proto signer options are regenerated into Gen/C16Proto.lean)
+	{
+		protoSigners := map[string][]string{}
+		if fp := os.Getenv("VERIF_FACTS"); fp != "" {
+			if bz, err := os.ReadFile(fp); err == nil {
+				var facts map[string]json.RawMessage
+				_ = json.Unmarshal(bz, &facts)
+				_ = json.Unmarshal(facts["C16.protoSigners"], &protoSigners)
+			}
+		}
+		probe := helpers.GenAccAddress()
+		for _, u := range authMsgs {
+			pm, _ := app.InterfaceRegistry().Resolve(u)
+			m := pm.(sdk.Msg)
+			setAuthority(m, probe.String())
+			signers, _, err := app.AppCodec().GetMsgV1Signers(m)
+			if err != nil || len(signers) != 1 || !probe.Equals(sdk.AccAddress(signers[0])) {
+				out.Violate(fmt.Sprintf("the running codec does not take the authority of %s as its only signer (signers %x, err %v)", u, signers, err))
+			}
+			out.Count("signer-is-authority")
+			if _, fx := fxURL[u]; fx && len(protoSigners) > 0 {
+				if sg, ok := protoSigners[strings.TrimPrefix(u, "/")]; !ok || len(sg) != 1 || sg[0] != "authority" {
+					out.Violate(fmt.Sprintf("the regenerated .proto facts do not declare `authority` as the signer of %s: %v", u, sg))
+				}
+			}
+		}
+	}
+	// ---- the authority every keeper of the running app holds (any keeper field with a GetAuthority method)
+	{
+		kv := reflect.ValueOf(app.AppKeepers)
+		if kv.Kind() == reflect.Ptr {
+			kv = kv.Elem()
+		}
+		n := 0
+		for i := 0; kv.Kind() == reflect.Struct && i < kv.NumField(); i++ {
+			f := kv.Field(i)
+			if !f.CanInterface() {
+				continue
+			}
+			cands := []reflect.Value{f}
+			if f.CanAddr() {
+				cands = append(cands, f.Addr())
+			}
+			for _, v := range cands {
+				mth := v.MethodByName("GetAuthority")
+				if !mth.IsValid() || mth.Type().NumIn() != 0 || mth.Type().NumOut() != 1 {
+					continue
+				}
+				var got string
+				if res := hx.Try(func() error {
+					r := mth.Call(nil)[0].Interface()
+					if st, ok := r.(fmt.Stringer); ok {
+						got = st.String()
+					} else {
+						got = fmt.Sprint(r)
+					}
+					return nil
+				}); res != "ok" {
+					break
+				}
+				n++
+				out.Count("keeper-authority-checked:" + kv.Type().Field(i).Name)
+				if got != gov {
+					out.Violate("keeper " + kv.Type().Field(i).Name + " of the running app holds authority " + got + ", not the governance module account " + gov)
+				}
+				break
+			}
+		}
+		out.Stats.Extra["keepers_with_authority_getter"] = n
+	}
+
 	// ---- valid payload builders for the fx-core messages
 	// a contract that exists, so that a governance-authorised MsgCallContract really takes effect
 	callee := helpers.GenHexAddress()
